@@ -14,7 +14,7 @@ RULE = ("The envelope is part of the trace validator and applies to every event 
         "documented types (typed signature table in harness/advprogs.py) but arbitrary values - negative, zero, large, None, "
         "empty, mismatched lengths, 60 malformed token strings, self as operand - in sequences of 6-16 calls on 1-3 objects, "
         "under msb0 and lsb0, interleaved with fully specified calls so that silent corruption shows against the exact "
-        "semantics. Results of the adversarial calls themselves are not judged (Step leaves them unconstrained).")
+        "semantics. Derive-then-mutate programs (pack with bits tokens, Dtype('bits').build, copies, slices, constructors, operators, then in-place changes of the result) show any object a call corrupts through shared storage. Results of the adversarial calls themselves are not judged (Step leaves them unconstrained).")
 
 
 def run(chk):
@@ -27,6 +27,10 @@ def run(chk):
     chk.queue([advprogs.adversarial_array_program(rng) for _ in range(1500 * k)], 'adversarial-array')
     chk.queue([drivers.c03_program(rng) for _ in range(300 * k)], 'random-mutations')
     chk.queue([drivers.c06_program(rng, lsb0=True) for _ in range(300 * k)], 'random-streams-lsb0')
+    # 'never corrupts an object': whatever a call returns is then changed in place while TLC keeps judging every live object
+    from harness import isoprogs
+    chk.queue([isoprogs.isolation_program(rng, lsb0=(i % 5 == 4)) for i in range(500 * k)], 'isolation')
+    chk.queue([isoprogs.derive_then_mutate_program(rng, lsb0=(i % 5 == 4)) for i in range(1200 * k)], 'derive-then-mutate')
     chk.flush()
     return chk.finish(rule=RULE, assumptions=common.ASSUME + [
         'the signature table in harness/advprogs.py reflects the documented parameter types'])
